@@ -433,7 +433,7 @@ func main() {
 	run.Assume = []string{
 		"value domains are alphabets: 8/16-bit integers and bool complete; 32/64-bit integers, floats, durations by every single-bit / all-ones-below-bit pattern and complements; complex numbers as a 12x12 grid; strings = every string of <=3 (thorough: <=4) units over 16 byte-units; times = 19 instants x 8 location kinds; slices nil/empty/aliasing sub-slices/all 2- and 3-tuples over 4-5 boundary elements/all single-element slices",
 		"integer delivery is compared by signedness class and decimal value, not by method width (Int32 through AddInt64 is accepted, uint32 through a signed method or a truncated value is not); float/complex width is pinned",
-		"left out (documentation silent): nil Object/Array marshalers, nil elements in Stringers/Objects, Stringers or errors whose method panics on a non-nil receiver, values implementing more than one of ObjectMarshaler/ArrayMarshaler/error/Stringer handed to Any (precedence undocumented), StackSkip beyond the stack depth, Fields assembled by hand instead of through a constructor",
+		"left out (documentation silent): nil Object/Array marshalers, nil elements in Objects and nil elements in Stringers whose String method does not cope with a nil receiver (a nil pointer whose String copes with it is an ordinary value and is in the alphabet), Stringers or errors whose method panics on a non-nil receiver, values implementing more than one of ObjectMarshaler/ArrayMarshaler/error/Stringer handed to Any (precedence undocumented), StackSkip beyond the stack depth, Fields assembled by hand instead of through a constructor",
 		"typed nil pointers whose Error/String method dereferences the receiver must arrive as \"<nil>\" (CHANGELOG #854, #867)",
 		"Equals: 'equal inputs' means == / element-wise == inputs; fields rebuilt from separately allocated NaN-holding slices are not required to be equal, reflexivity (f.Equals(f)) is required for every field; Equals==false is required when type, key or delivered value differ, except between +0/-0 and NaN-holding values where Go's == and the bit pattern disagree",
 		"the constructor list and Any's case list come from go/parser on " + repoRoot() + "; constructors without a driver row are listed under uncovered_constructors and are NOT checked",
